@@ -4,6 +4,9 @@ import (
 	"fmt"
 	"strings"
 
+	"github.com/Logicalis/asn1"
+	"github.com/honeytrap/honeytrap/services/snmp"
+
 	"verif/harness/hx"
 )
 
@@ -531,6 +534,148 @@ func ldapStream(r *hx.Rand) stream {
 	return s
 }
 
+
+// ---- chunked request bodies ----
+func chunkedReq(r *hx.Rand, method, path, host string, headers []string, body string, nchunks int) string {
+	s := method + " " + path + " HTTP/1.1\r\nHost: " + host + "\r\n"
+	for _, h := range headers {
+		s += h + "\r\n"
+	}
+	s += r.PickStr([]string{"Transfer-Encoding: chunked", "transfer-encoding: Chunked", "Transfer-Encoding:chunked"}) + "\r\n"
+	trailer := r.Chance(1, 3)
+	if trailer {
+		s += "Trailer: X-Checksum\r\n"
+	}
+	s += "\r\n"
+	rest := body
+	for c := 0; c < nchunks-1 && len(rest) > 1; c++ {
+		n := r.Range(1, len(rest)-1)
+		s += chunkLine(r, n) + rest[:n] + "\r\n"
+		rest = rest[n:]
+	}
+	if len(rest) > 0 {
+		s += chunkLine(r, len(rest)) + rest + "\r\n"
+	}
+	s += r.PickStr([]string{"0\r\n", "0\r\n", "00\r\n", "0;last\r\n"})
+	if trailer {
+		s += "X-Checksum: abc123\r\n"
+	}
+	return s + "\r\n"
+}
+
+func chunkLine(r *hx.Rand, n int) string {
+	h := fmt.Sprintf("%x", n)
+	if r.Bool() {
+		h = strings.ToUpper(h)
+	}
+	if r.Chance(1, 5) {
+		h = "0" + h
+	}
+	return h + r.PickStr([]string{"", "", "", ";ext=1", ";name=\"v\"", " "}) + "\r\n"
+}
+
+func chunkedStream(r *hx.Rand, svc string, nreq int) stream {
+	s := stream{svc: svc}
+	for i := 0; i < nreq; i++ {
+		body := r.PickStr([]string{"a=1&b=2", "x", "hello chunked world, this is request body", strings.Repeat("payload-", 30)})
+		method, path, hdrs := "POST", r.PickStr([]string{"/", "/submit", "/a/b?c=d"}), []string{}
+		switch svc {
+		case "ethereum":
+			body = fmt.Sprintf(`{"jsonrpc":"2.0","method":"%s","params":[],"id":%d}`, r.PickStr([]string{"eth_accounts", "eth_blockNumber"}), r.Range(1, 99))
+			hdrs = append(hdrs, "Content-Type: application/json")
+		case "cwmp":
+			m := r.PickStr([]string{"Inform", "GetRPCMethods"})
+			body = fmt.Sprintf(soap, m, m)
+		case "eos":
+			path = "/v1/chain/get_info"
+		}
+		if r.Chance(1, 8) {
+			body = ""
+		}
+		s.units = append(s.units, chunkedReq(r, method, path, "h.example", hdrs, body, r.Range(1, 4)))
+	}
+	return s
+}
+
+func chunkedMalformed(r *hx.Rand, svc string) stream {
+	head := "POST /x HTTP/1.1\r\nHost: h\r\nTransfer-Encoding: chunked\r\n\r\n"
+	return stream{svc: svc, units: []string{head + r.PickStr([]string{
+		"5\r\nhello\r\n",                 // no last chunk: the stream ends inside the body
+		"5\r\nhel",                          // ends inside a chunk
+		"zz\r\nhello\r\n0\r\n\r\n",   // not hex
+		"5\r\nhelloXX0\r\n\r\n",        // data not followed by CRLF
+		"\r\n",                              // empty size
+		"5\r\nhello\r\n0\r\nbad trailer\r\n\r\n",
+		"5\r\nhello\r\n0\r\n",           // trailer missing
+	}), "GET /after HTTP/1.1\r\nHost: h\r\n\r\n"}}
+}
+
+// ---- snmp ----
+func snmpDatagram(r *hx.Rand, i int) []byte {
+	oids := []asn1.Oid{{1, 3, 6, 1, 2, 1, 1, 1, 0}, {1, 3, 6, 1, 2, 1, 1, 5, 0}, {1, 3, 6, 1, 2, 1, 2, 2, 1, 10, uint(i)}, {1, 3, 6, 1, 4, 1, 9, 2, 1, 57, 300}, {2, 39, 3}}
+	var vs []snmp.Variable
+	for k, n := 0, r.Range(0, 3); k < n; k++ {
+		vs = append(vs, snmp.Variable{Name: oids[r.Intn(len(oids))], Value: asn1.Null{}})
+	}
+	p := snmp.Pdu{Identifier: r.Range(1, 100), Variables: vs}
+	var pdu interface{}
+	switch r.Intn(5) {
+	case 0:
+		pdu = snmp.GetNextRequestPdu(p)
+	case 1:
+		pdu = snmp.SetRequestPdu(p)
+	case 2:
+		pdu = snmp.GetResponsePdu(p)
+	default:
+		pdu = snmp.GetRequestPdu(p)
+	}
+	version := 0
+	if r.Chance(1, 6) {
+		version = 1
+	}
+	b, err := snmp.Asn1Context().Encode(snmp.Message{Version: version, Community: r.PickStr([]string{"public", "private", "", fmt.Sprintf("c%d", i)}), Pdu: pdu})
+	if err != nil {
+		hx.Fatal("snmp encode: %v", err)
+	}
+	// (a datagram shorter than its declared length is decoded zero-filled; whether the ASN.1
+	// library accepts the result is not modelled - only the cut below the 2-byte header is sent)
+	if r.Chance(1, 12) {
+		b = b[:r.Range(0, 1)]
+	}
+	return b
+}
+
+// ---- sequences from one source: more datagrams than the limiter's burst ----
+func udpSequence(r *hx.Rand, svc string, n int) Input {
+	var all []byte
+	var cuts []int
+	for i := 0; i < n; i++ {
+		var d []byte
+		switch svc {
+		case "tftp-seq":
+			d = burstDatagram(r, "tftp", i)
+		case "counterstrike-seq":
+			d = burstDatagram(r, "counterstrike", i)
+		case "dns-seq":
+			d = burstDatagram(r, "dns", i)
+		case "snmp-seq":
+			d = snmpDatagram(r, i)
+			if len(d) == 0 {
+				d = []byte{0x30}
+			}
+		case "memcached-udp-seq":
+			lines := ""
+			for k, m := 0, r.Range(1, 3); k < m; k++ {
+				lines += fmt.Sprintf("get key-%d-%d\r\n", i, k)
+			}
+			d = append([]byte{0, byte(i), 0, 0, 0, 1, 0, 0}, lines...)
+		}
+		all = append(all, d...)
+		cuts = append(cuts, len(d))
+	}
+	return Input{Svc: svc, Stream: all, Cuts: cuts, Mode: "one-source-sequence"}
+}
+
 // ---- segmentations ----
 func (s stream) input(mode string, cuts []int, waits []int) Input {
 	return Input{Svc: s.svc, Stream: s.bytes(), Cuts: cuts, Waits: waits, Mode: mode}
@@ -639,7 +784,9 @@ func datagrams(r *hx.Rand, n int) []Input {
 		out = append(out, Input{Svc: svc, Stream: b, Mode: "datagram"})
 	}
 	for i := 0; i < n; i++ {
-		switch r.Intn(5) {
+		switch r.Intn(6) {
+		case 5:
+			dg("snmp", snmpDatagram(r, i))
 		case 0:
 			op := r.PickInt([]int{1, 1, 2, 2, 3, 4, 5, 9})
 			b := []byte{0, byte(op)}
@@ -736,6 +883,22 @@ func generate(r *hx.Rand, tier string) []Input {
 	ins = append(ins, expand(stream{svc: "redis", units: []string{resp("PING"), "*0\r\n"}}, r, false, 3)...)
 	ins = append(ins, expand(stream{svc: "redis", units: []string{resp("PING"), "*-1\r\n", resp("INFO")}}, r, false, 3)...)
 	ins = append(ins, expand(stream{svc: "redis", units: []string{resp("PING"), "\r\n", "\r\n", resp("INFO")}}, r, false, 3)...)
+
+	// chunked bodies for every HTTP-framed service, every cut point on one stream each
+	for _, svc := range []string{"http", "docker", "elasticsearch", "eos", "ethereum", "cwmp"} {
+		nreq := 1
+		if svc == "http" {
+			nreq = 2
+		}
+		every := svc == "http" || svc == "ethereum" || svc == "eos" || tier != "quick"
+		ins = append(ins, expand(chunkedStream(r, svc, nreq), r, every, 14)...)
+		ins = append(ins, expand(chunkedStream(r, svc, nreq), r, false, 10)...)
+		ins = append(ins, expand(chunkedMalformed(r, svc), r, false, 4)...)
+	}
+	// more datagrams from ONE source than the reply limiter's burst (4)
+	for _, svc := range []string{"tftp-seq", "memcached-udp-seq", "counterstrike-seq", "snmp-seq", "dns-seq"} {
+		ins = append(ins, udpSequence(r, svc, 12), udpSequence(r, svc, 3), udpSequence(r, svc, 6))
+	}
 
 	perSvc, sample, nudp := 4, 10, 60
 	if tier == "thorough" {
